@@ -96,6 +96,11 @@ void Position::legal_captures(std::vector<Move> &moves) const noexcept {
     assert((pinned_vertical | pinned_horizontal) == pinned_rook);
     assert((pinned_bishop | pinned_rook) == pinned);
 
+    // When in check, en passant must capture the checking pawn or interpose on the checking line
+    const auto ep_victim = us == Side::White ? ep_bb.south() : ep_bb.north();
+    const bool ep_resolves_check =
+        checkers.empty() || (allowed & ep_victim) || (squares_between(ksq, checkers.lsb()) & ep_bb);
+
     // Pawns
     if (us == Side::White) {
         const auto pawns_ne = pieces(us, Piece::Pawn) & ~pinned_rook & ~pinned_nw_se;
@@ -144,7 +149,7 @@ void Position::legal_captures(std::vector<Move> &moves) const noexcept {
         }
 
         // En passant
-        if (ep_bb) {
+        if (ep_bb && ep_resolves_check) {
             const auto rq = pieces(Side::Black, Piece::Rook) | pieces(Side::Black, Piece::Queen);
 
             // North west
@@ -215,7 +220,7 @@ void Position::legal_captures(std::vector<Move> &moves) const noexcept {
         }
 
         // En passant
-        if (ep_bb) {
+        if (ep_bb && ep_resolves_check) {
             const auto rq = pieces(Side::White, Piece::Rook) | pieces(Side::White, Piece::Queen);
 
             // South west
